@@ -391,6 +391,21 @@ var Injectors = []injector{
 		if len(cands) == 0 {
 			return nil
 		}
+		if chance(r, 1, 3) {
+			// the name of the tag that an earlier, untagged interaction gets from its path: not a declared TAG either
+			*ids += 5
+			first := &Dir{ID: *ids - 4, Kw: "GET", Params: []Param{bare("/zzpath")}, Children: []*Dir{{ID: *ids - 3, Kw: "200", Params: []Param{bare("any")}}}}
+			nd := &Dir{ID: *ids - 2, Kw: "Tags", Params: []Param{bare("@zzpath")}}
+			second := &Dir{ID: *ids - 1, Kw: "GET", Params: []Param{bare("/zzother")}, Children: []*Dir{nd, {ID: *ids, Kw: "200", Params: []Param{bare("any")}}}}
+			if chance(r, 1, 2) {
+				appendRoot(tree, first)
+				appendRoot(tree, second)
+			} else {
+				appendRoot(tree, second)
+				appendRoot(tree, first)
+			}
+			return &Fault{Class: "undefined:tag", Msg: []string{"tag not found"}, DirID: nd.ID}
+		}
 		m := pick(r, cands)
 		*ids++
 		nd := &Dir{ID: *ids, Kw: "Tags", Params: []Param{bare("@undefinedTag")}}
